@@ -163,8 +163,13 @@ class Orc:
 def sel_canon(sl):
     """selector list as item sequences; namespaced names are (uri, name) pairs, so this does not depend on
     which prefixes the sheet happens to declare at serialisation time (selectorText does)"""
-    return ' , '.join(' '.join('%s:%s' % (i.type, i.value if isinstance(i.value, str) else '|'.join(map(str, i.value)))
-                               for i in sel.seq) for sel in sl.seq)
+    def val(v):
+        if isinstance(v, str):
+            return v
+        if isinstance(v, tuple):
+            return '|'.join(map(str, v))
+        return getattr(v, 'cssText', repr(type(v)))      # e.g. a CSSComment inside the selector
+    return ' , '.join(' '.join('%s:%s' % (i.type, val(i.value)) for i in sel.seq) for sel in sl.seq)
 
 
 def shown_queries(tree, in_media=False):
@@ -278,11 +283,11 @@ def parse_real(text):
     try:
         with time_limit(30):
             sheet = c.CSSParser(fetcher=null_fetcher).parseString(text)
-            return proj_rules_real(sheet.cssRules)
     except TimeLimit:
         raise
     except Exception as e:
         return ('RAISE', type(e).__name__)
+    return proj_rules_real(sheet.cssRules)     # an error in here is the harness's, not the implementation's
 
 
 def decls_real(text):
@@ -291,11 +296,11 @@ def decls_real(text):
         with time_limit(30):
             st = c.css.CSSStyleDeclaration()
             st.cssText = text
-            return proj_items_real(st)
     except TimeLimit:
         raise
     except Exception as e:
         return ('RAISE', type(e).__name__)
+    return proj_items_real(st)
 
 
 def strip_proj(p):
